@@ -67,6 +67,12 @@ def base_cases(r, tier):
     out.append({"name": "collision", "spec": spec4, "pre": pre4, "bs": "4096", "expect_fail": True})
     out.append({"name": "multi-block-no-cfr", "spec": copy.deepcopy(spec), "pre": [], "bs": "4096", "expect_fail": False,
                 "rules": [{"id": "r", "sys": "copy_file_range", "under": "@ROOT@", "action": "fault", "errno": 18}]})
+    xspec = copy.deepcopy(spec)
+    for e in xspec:
+        if e["k"] == "f":
+            e["xattrs"] = {"user.tag": "t-" + os.path.basename(e["p"])}
+    out.append({"name": "one-xattr-refused", "spec": xspec, "pre": [], "bs": "4096", "expect_fail": False,
+                "rules": [{"id": "x", "sys": "fsetxattr", "suffix": "/dst/m2", "action": "fault", "errno": 28}]})
     out.append({"name": "multi-block-options", "spec": copy.deepcopy(spec), "pre": [], "bs": "4096", "expect_fail": False, "opts": ["--no-perms", "--fsync", "--reflink", "never"]})
     if tier == "thorough":
         for k in range(4):
@@ -114,7 +120,7 @@ def run_case(case):
         tree.materialize(root, tree.fix_mtimes(case["pre"], 1_500_000_000_000_000_000))
         plan = dict(case["plan"])
         plan.update({"log_mode": "full", "pct_horizon": 600, "sched_cap_us": 3000, "umask": 0o027,
-                     "rules": [dict(x, under=root + "/") for x in case.get("rules", [])]})
+                     "rules": [dict(x, under=root + "/") if "suffix" not in x else dict(x) for x in case.get("rules", [])]})
         run = core.run_xcp(sb, case["args"], plan)
         if run.verdict != "exited":
             res["inconc"].append("run-" + run.verdict)
